@@ -66,11 +66,11 @@ Definition is_injected (t : aty) : bool :=
       | _ => last_seg_rule n args
       end
   end.
-(* channel_parser.rs:66 and :94 *)
+(* channel_parser.rs:66 and :94: bare, rooted at tauri, or (repair C04-2-ipc-channel) the two-segment ipc::Channel *)
 Definition channel_of (t : aty) : bool :=
   match t with
   | APath pre NChannel args =>
-      (match pre with [] => true | STauri :: _ => true | _ => false end) && first_is_type args
+      (match pre with [] => true | STauri :: _ => true | [SIpc] => true | _ => false end) && first_is_type args
   | _ => false
   end.
 (* command_parser.rs:247 *)
@@ -101,7 +101,7 @@ Record ctx := { x_values : list (str * bool); x_chans : list str }.
 Definition value_entry (cf : cfg) (p : param) : outcome (str * bool) :=
   match param_key cf (p_name p) with Ok k => Ok (k, is_opt (p_ty p)) | Panic => Panic end.
 Definition analyse (cf : cfg) (c : cmd) : outcome ctx :=
-  match camel_b (c_name c) with                           (* compute_function_name *)
+  match apply_rule RCamel (c_name c) with                 (* compute_function_name *)
   | Panic => Panic
   | Ok _ =>
       match mapO (value_entry cf) (value_params c), mapO (fun p => param_key cf (p_name p)) (chan_params c) with
